@@ -38,6 +38,17 @@ def apply(ctx, W):
     fn_into_verus(ctx, fw, "TypeRegistry::get", ret="r", tags=U, ensures=[
         "r == (if self.types@.contains_key(*item_path) { Some(&self.types@[*item_path]) } else { None::<&ItemDefinition> })"])
 
+    fn_gm, u_gm = fn_into_verus(ctx, fw, "TypeRegistry::get_mut", ret="r", tags=("C10", "C12", "C14"), ensures=[
+        ("final(self).pointer_size == old(self).pointer_size", ("C10",), "get-mut-keeps-pointer-size"),
+        ("""match r {
+                Some(v) => old(self).types@.contains_key(*item_path) && *v == old(self).types@[*item_path]
+                    && final(self).types@.dom() == old(self).types@.dom()
+                    && final(self).types@[*item_path] == *final(v)
+                    && (forall|j: ItemPath| #![trigger final(self).types@[j]] old(self).types@.contains_key(j) && j != *item_path ==> final(self).types@[j] == old(self).types@[j]),
+                None => !old(self).types@.contains_key(*item_path) && final(self).types@ == old(self).types@,
+            }""", ("C10", "C14"), "get-mut-frame"),
+    ])
+    ghost(ctx, fw, u_gm, fn_gm["block_span"][0] + 1, "broadcast use vstd::std_specs::hash::group_hash_axioms;")
     # ------------------------------------------------------------------ semantic/type_definition/mod.rs
     fw = W.file("semantic/type_definition/mod.rs")
     fn_into_verus(ctx, fw, "Region::size", ret="r", tags=U, ensures=["r == ty_size(self.type_ref, type_registry)"])
